@@ -102,6 +102,24 @@ func genPackage(c *vh.Ctx, r *rand.Rand, n int, nmsgs int) []*descriptorpb.FileD
 	return []*descriptorpb.FileDescriptorProto{pin, p2, p3, ed}
 }
 
+// report records one failure. Failures carrying a classifier signature are recorded once per signature and
+// run (they are re-counted in the histogram); unclassified ones count towards the early stop.
+var seenSig = map[string]bool{}
+var unclassified int
+
+func report(c *vh.Ctx, what string, input any, sig string) {
+	if sig != "" {
+		c.Hist("classified:" + sig)
+		if seenSig[sig] {
+			return
+		}
+		seenSig[sig] = true
+	} else {
+		unclassified++
+	}
+	c.Check(false, what, input, sig)
+}
+
 func appendNote(notes []string, s string) []string {
 	for _, n := range notes {
 		if n == s {
@@ -200,7 +218,7 @@ func (e *env) runBatch(c *vh.Ctx, n int, files []*descriptorpb.FileDescriptorPro
 			li.names = append(li.names, f.GetName())
 		}
 		if _, err := validate(li.files); err != nil {
-			c.Check(false, "schema generator produced descriptors that protodesc rejects (harness defect, not a finding)", in(li.level, "", "", err.Error(), ""), "")
+			report(c, "schema generator produced descriptors that protodesc rejects (harness defect, not a finding)", in(li.level, "", "", err.Error(), ""), "")
 			return
 		}
 		req := makeRequest(li.files, li.names, "default_api_level="+api)
@@ -212,13 +230,13 @@ func (e *env) runBatch(c *vh.Ctx, n int, files []*descriptorpb.FileDescriptorPro
 			if po.Resp != nil {
 				msg = po.Resp.GetError()
 			}
-			c.Check(false, "protoc-gen-go fails on a valid schema ("+api+")", in(li.level, "", "", head(msg, 800), ""), "")
+			report(c, "protoc-gen-go fails on a valid schema ("+api+")", in(li.level, "", "", head(msg, 800), ""), "")
 			return
 		}
 		for _, rf := range po.Resp.File {
 			rel := strings.TrimPrefix(rf.GetName(), modulePath+"/")
 			if rel == rf.GetName() || !strings.HasPrefix(rel, fmt.Sprintf("internal/zz_verif_gen_%d/%s/", n, li.level)) {
-				c.Check(false, "generated file name is not under the go_package import path", in(li.level, "", "", rf.GetName(), ""), "")
+				report(c, "generated file name is not under the go_package import path", in(li.level, "", "", rf.GetName(), ""), "")
 				return
 			}
 			p := filepath.Join(dir, rel)
@@ -236,30 +254,35 @@ func (e *env) runBatch(c *vh.Ctx, n int, files []*descriptorpb.FileDescriptorPro
 			want *= 2
 		}
 		if len(po.Resp.File) != want {
-			c.Check(false, fmt.Sprintf("unexpected number of generated files at %s: %d, want %d", api, len(po.Resp.File), want), in(li.level, "", "", "", ""), "")
+			report(c, fmt.Sprintf("unexpected number of generated files at %s: %d, want %d", api, len(po.Resp.File), want), in(li.level, "", "", "", ""), "")
 		}
 		// accessor names as protogen assigns them (in-process run of the same tree)
 		res := generateInProcess(li.files, li.names, api)
 		if res.Err != "" {
-			c.Check(false, "in-process protogen fails where the plugin subprocess succeeded", in(li.level, "", "", res.Err, ""), "")
+			report(c, "in-process protogen fails where the plugin subprocess succeeded", in(li.level, "", "", res.Err, ""), "")
 			return
 		}
 		// in-process output must equal the subprocess output (ties the prescan to the binary under test)
 		for _, rf := range po.Resp.File {
 			if res.Files[rf.GetName()] != rf.GetContent() {
-				c.Check(false, "in-process generation differs from the plugin subprocess output", in(li.level, "", "", rf.GetName()+": "+firstDiff(res.Files[rf.GetName()], rf.GetContent()), ""), "")
+				report(c, "in-process generation differs from the plugin subprocess output", in(li.level, "", "", rf.GetName()+": "+firstDiff(res.Files[rf.GetName()], rf.GetContent()), ""), "")
 			}
+		}
+		names, err := nameTable(li.files, li.names, api, tags == "protoopaque")
+		if err != nil {
+			report(c, "in-process protogen fails where the plugin subprocess succeeded", in(li.level, "", "", err.Error(), ""), "")
+			return
 		}
 		fds := &descriptorpb.FileDescriptorSet{File: append(wellKnownDeps(li.files), li.files...)}
 		fb, _ := proto.MarshalOptions{Deterministic: true}.Marshal(fds)
-		ci.Levels = append(ci.Levels, cmpLevel{Level: li.level, Pkg: li.pkg, FDS: hex.EncodeToString(fb), Files: li.names, Names: nameTable(res.Gen)})
+		ci.Levels = append(ci.Levels, cmpLevel{Level: li.level, Pkg: li.pkg, FDS: hex.EncodeToString(fb), Files: li.names, Names: names})
 		insts = append(insts, li)
 	}
 	// gofmt
 	so, se, err, _ := runCmd(dir, os.Environ(), nil, "gofmt", append([]string{"-l"}, gofmtFiles...)...)
 	c.Case(fmt.Sprintf("gofmt|%d|%d", seed, n), true)
 	if err != nil || len(strings.TrimSpace(string(so))) > 0 {
-		c.Check(false, "generated code is not gofmt-formatted (gofmt -l lists it)", in("", "", "", head(string(so)+string(se), 600), ""), "")
+		report(c, "generated code is not gofmt-formatted (gofmt -l lists it)", in("", "", "", head(string(so)+string(se), 600), ""), "")
 	} else {
 		c.Hist("gofmt:clean")
 	}
@@ -303,13 +326,13 @@ func (e *env) runBatch(c *vh.Ctx, n int, files []*descriptorpb.FileDescriptorPro
 	os.WriteFile(inPath, ib, 0o644)
 	so, se, err, _ = runCmd(dir, os.Environ(), nil, bin, inPath, outPath)
 	if err != nil {
-		c.Check(false, "comparison program linking the generated packages crashed (init or run time)", in("", "", "", tail(string(se), 1500), ""), "")
+		report(c, "comparison program linking the generated packages crashed (init or run time)", in("", "", "", tail(string(se), 1500), ""), "")
 		return
 	}
 	ob, err := os.ReadFile(outPath)
 	var co cmpOutput
 	if err != nil || json.Unmarshal(ob, &co) != nil {
-		c.Check(false, "comparison program wrote no result", in("", "", "", "", ""), "")
+		report(c, "comparison program wrote no result", in("", "", "", "", ""), "")
 		return
 	}
 	for k, v := range co.Hist {
@@ -322,7 +345,7 @@ func (e *env) runBatch(c *vh.Ctx, n int, files []*descriptorpb.FileDescriptorPro
 		c.Case("", false)
 	}
 	for _, f := range co.Failures {
-		c.Check(false, f.What, in(f.Level, f.Msg, f.Bytes, f.Detail, ""), f.Sig)
+		report(c, f.What, in(f.Level, f.Msg, f.Bytes, f.Detail, ""), f.Sig)
 	}
 	if len(c.R.Samples) < 6 {
 		c.Sample(map[string]any{"batch": n, "schema": summary(files), "evaluations": co.Evals, "failures": len(co.Failures)})
@@ -346,7 +369,7 @@ func (e *env) classifyBuildFailure(c *vh.Ctx, files []*descriptorpb.FileDescript
 			continue
 		}
 		explained[f.Dup.Name] = true
-		c.Check(false, "generated code does not compile: "+f.Dup.String()+" declared twice", in(levelShort(strings.Split(f.Variant, "+")[0]), "", "", f.Dup.String(), comp), f.Sig)
+		report(c, "generated code does not compile: "+f.Dup.String()+" declared twice", in(levelShort(strings.Split(f.Variant, "+")[0]), "", "", f.Dup.String(), comp), f.Sig)
 	}
 	// compiler errors not mentioning an identifier of a classified duplicate
 	un := 0
@@ -364,12 +387,12 @@ func (e *env) classifyBuildFailure(c *vh.Ctx, files []*descriptorpb.FileDescript
 				if p := strings.Split(m[1], "/"); len(p) > 2 {
 					lvl = p[2]
 				}
-				c.Check(false, "generated code does not compile", in(lvl, "", "", m[1]+":"+m[2]+": "+m[4], comp), "")
+				report(c, "generated code does not compile", in(lvl, "", "", m[1]+":"+m[2]+": "+m[4], comp), "")
 			}
 		}
 	}
 	if len(errs) == 0 {
-		c.Check(false, "go build of the generated packages failed", in("", "", "", "", comp), "")
+		report(c, "go build of the generated packages failed", in("", "", "", "", comp), "")
 	}
 }
 
@@ -466,7 +489,7 @@ func (e *env) runKnownBad(c *vh.Ctx) {
 				sig = f.Sig
 			}
 		}
-		c.Check(false, "generated code does not compile (witness schema of a known collision class)", input, sig)
+		report(c, "generated code does not compile (witness schema of a known collision class)", input, sig)
 	}
 	_ = pkgs
 }
@@ -480,7 +503,7 @@ func runC41(c *vh.Ctx) {
 	}
 	defer e.cleanup()
 	if err := e.buildPlugin(); err != nil {
-		c.Check(false, "cmd/protoc-gen-go of the tree under test does not build", map[string]string{"kind": "build", "error": err.Error()}, "")
+		report(c, "cmd/protoc-gen-go of the tree under test does not build", map[string]string{"kind": "build", "error": err.Error()}, "")
 		return
 	}
 	// replay: schemas (and encodings) of a replay file first
@@ -510,7 +533,7 @@ func runC41(c *vh.Ctx) {
 	}
 	e.runKnownBad(c)
 	batches := c.N(2, 25)
-	for b := 0; b < batches && !c.Failed(); b++ {
+	for b := 0; b < batches && unclassified < 6; b++ {
 		r := rand.New(rand.NewSource(c.Seed*7919 + int64(b)))
 		nm := 3 + r.Intn(4)
 		files := genPackage(c, r, b, nm)
